@@ -82,3 +82,17 @@ Definition mismatch_reasons (c : pod_case) : bool :=
 (** a pure model self-check used while developing: both text and bits *)
 Definition run_pods_text (cs : list pod_case) : list N * list N :=
   (find_idx mismatch_bits cs, find_idx mismatch_text cs).
+
+(** C14: the same pod evaluated repeatedly (fresh map iteration orders): every
+    repetition must give the identical vector of results; the pod term carries
+    the annotations in a shuffled order, and the model must still reproduce the
+    exact text. *)
+Record c14_case := C14Case { c14_pc : pod_case; c14_reps : list (list (nat * check_result)) }.
+Definition bad_eqb (a b : nat * check_result) : bool := Nat.eqb (fst a) (fst b) && cr_eqb (snd a) (snd b).
+Definition propfail_c14 (c : c14_case) : bool :=
+  match c14_reps c with
+  | [] => false
+  | r0 :: rest => existsb (fun r => negb (list_eqb bad_eqb r0 r)) rest
+  end.
+Definition run_c14 (cs : list c14_case) : list N * list N :=
+  (find_idx propfail_c14 cs, find_idx (fun c => mismatch_text (c14_pc c)) cs).
